@@ -12,7 +12,7 @@ falsifier  measurement on the real library (checks/phaselib.py): prototype filte
            implementation period, |H_p| against |H_50| over pass- and stop-band, end-to-end mirror law, linear-phase symmetry
            about the input instant, sine-fit amplitude / residual, output length.  Never counted as proof.
 """
-import json, math, os, subprocess
+import json, math, os, re, subprocess
 import numpy as np
 from vlib import common
 from checks import crcommon as cr
@@ -22,10 +22,27 @@ LEVEL = "proof"
 PID = "C14"
 SEL_WRAP = "-Wl,--wrap=_soxr_rdft -Wl,--wrap=_soxr_fir_to_phase"
 FIT_FLOOR = 4e-9        # resolution of the harness' on-the-fly least-squares residual (normal equations in long double over 2e4 frames)
-PB_TOL_DB = 0.01        # soxr.h: the tightest pass-band promise the library makes (SOXR_ROLLOFF_SMALL: <= 0.01 dB)
+PB_TOL_DB = 0.01        # soxr.h: pass-band promise of the recipe's roll-off class: SOXR_ROLLOFF_SMALL <= 0.01 dB (P.ROLL_DB for the others)
+
+
+def pb_tol(q):
+    """dB.  LQ (medium roll-off, <= 0.35 dB) is the one recipe whose PLAN depends on the phase: `mode` of _soxr_init becomes 1 when
+    phase_response != 50, another interpolation filter with another band edge (measured: 0.11 dB at 0.93 of the pass-band)."""
+    return P.ROLL_DB.get(int(q["flags"]) & 3, PB_TOL_DB)
 
 
 # ------------------------------------------------------------------ the Lean driver
+
+MAX_REPLAYS = 12
+
+
+def viol(ctx, what, replay, no_input=False):
+    """ctx.violation, but at most MAX_REPLAYS replay files per run (the rest are counted)"""
+    if len(ctx.violations) < MAX_REPLAYS:
+        ctx.violation(what, replay, no_input)
+    else:
+        ctx.count("violations_beyond_the_first_%d_not_written" % MAX_REPLAYS)
+
 
 def driver_cmd():
     exe = os.path.join(common.LEAN, ".lake", "build", "bin", "soxr_phase")
@@ -60,7 +77,7 @@ def sel_exe():
 
 def correspondence(ctx):
     exe = sel_exe()
-    n = {"sel": 40 if ctx.quick else 600, "dft": 150 if ctx.quick else 4000, "lpf": 100 if ctx.quick else 3000}
+    n = {"sel": 40 if ctx.quick else 2000, "dft": 150 if ctx.quick else 20000, "lpf": 100 if ctx.quick else 5000}
     mism = 0
     for mode in ("sel", "dft", "lpf"):
         seed = ctx.rng.next() >> 8
@@ -68,7 +85,7 @@ def correspondence(ctx):
                            universal_newlines=True, timeout=3600)
         lines = p.stdout.splitlines()
         if p.returncode or not lines or lines[-1] != "END":
-            ctx.violation("harness phase/sel.c mode=%s did not finish (exit %s): %s" % (mode, p.returncode, p.stderr[-800:]),
+            viol(ctx, "harness phase/sel.c mode=%s did not finish (exit %s): %s" % (mode, p.returncode, p.stderr[-800:]),
                           {"harness": "phase/sel.c", "mode": mode, "seed": seed}, no_input=True)
             continue
         ops, real = [], []
@@ -82,7 +99,7 @@ def correspondence(ctx):
                 direct_oracle(ctx, l, mode, seed)
         model = run_model(ops)
         if len(model) != len(ops):
-            ctx.violation("Lean driver answered %d lines for %d operations (mode %s)" % (len(model), len(ops), mode),
+            viol(ctx, "Lean driver answered %d lines for %d operations (mode %s)" % (len(model), len(ops), mode),
                           {"mode": mode, "seed": seed}, no_input=True)
             continue
         ctx.count("evaluations", len(ops))
@@ -98,7 +115,7 @@ def correspondence(ctx):
             if bad:
                 mism += 1
                 if mism <= 3:
-                    ctx.violation("correspondence broken (Lean phase model vs real code) for `%s`:\n real : %s\n model: %s" % (op, r, m),
+                    viol(ctx, "correspondence broken (Lean phase model vs real code) for `%s`:\n real : %s\n model: %s" % (op, r, m),
                                   {"harness": "phase/sel.c", "mode": mode, "seed": seed, "op": op, "real": r, "model": m,
                                    "rerun": "%s mode=%s seed=%d count=%d" % (exe, mode, seed, n[mode])}, no_input=False)
         if ops:
@@ -114,16 +131,16 @@ def direct_oracle(ctx, line, mode, seed):
     if k == "mirror":
         ok = f["reversed"] == "1" and f["len"] == f["lenm"] and int(f["post"]) + int(f["postm"]) == int(f["len"]) - 1
         if not ok:
-            ctx.violation("lsx_fir_to_phase: the filter for 100-p is not the filter for p reversed / post_len not mirrored: " + line, rep)
+            viol(ctx, "lsx_fir_to_phase: the filter for 100-p is not the filter for p reversed / post_len not mirrored: " + line, rep)
     elif k == "linear":
         n, post = int(f["len"]), int(f["post"])
         if post != (n - 1) // 2 or float(f["asym"]) > 1e-9 * max(float(f["top"]), 1e-300):
-            ctx.violation("lsx_fir_to_phase(phase = 50): not centred / not symmetric: " + line, rep)
+            viol(ctx, "lsx_fir_to_phase(phase = 50): not centred / not symmetric: " + line, rep)
     elif k == "lpf":
         if f["sym"] != "1":
-            ctx.violation("lsx_make_lpf: h[i] != h[n-1-i]: " + line, rep)
+            viol(ctx, "lsx_make_lpf: h[i] != h[n-1-i]: " + line, rep)
     else:
-        ctx.violation("harness phase/sel.c reports an inconsistency: " + line, rep, no_input=True)
+        viol(ctx, "harness phase/sel.c reports an inconsistency: " + line, rep, no_input=True)
 
 
 # ------------------------------------------------------------------ exported plans against the clauses
@@ -146,7 +163,7 @@ def plan_job(c):
 
 def plan_sweep(ctx):
     rng = ctx.rng
-    n = 400 if ctx.quick else 6000
+    n = 400 if ctx.quick else 20000
     cfgs = []
     for i in range(n):
         cfg, env = cr.gen_config(rng, allow_nonlinear=True, max_up=600.0)
@@ -168,7 +185,7 @@ def plan_sweep(ctx):
     for c, info, err in res:
         ctx.count("plans_requested")
         if err:
-            ctx.violation("plan export failed: %s (%s)" % (err, P.label(c)), {"cfg": c}, no_input=True)
+            viol(ctx, "plan export failed: %s (%s)" % (err, P.label(c)), {"cfg": c}, no_input=True)
             continue
         if "error" in info or "plan" not in info:
             ctx.count("plans_rejected_or_not_cr")
@@ -189,22 +206,22 @@ def plan_sweep(ctx):
         ctx.hist("dist_plan_dft_L", s["L"] if s["L"] <= 8 else ">8" if not P.is_pow2(s["L"]) else "pow2>=16")
         rep = {"cfg": c, "stage": s, "model": a, "plan": info["stages"]}
         if f.get("latency") != "1" or f.get("shape") != "1":
-            ctx.violation("dft stage violates the latency / shape clauses of dft_stage_init (post_peak = L*preload + at, at < L, block_len, "
+            viol(ctx, "dft stage violates the latency / shape clauses of dft_stage_init (post_peak = L*preload + at, at < L, block_len, "
                           "input_size): %s -> %s (%s)" % (op, a, P.label(c)), rep)
         elif lin and (f.get("centred") != "1" or f.get("fdok") != "1"):
-            ctx.violation("LINEAR-phase dft stage is not centred / not block-aligned (theorems linear_design_centred, "
+            viol(ctx, "LINEAR-phase dft stage is not centred / not block-aligned (theorems linear_design_centred, "
                           "linear_block_aligned say it always is): %s -> %s (%s)" % (op, a, P.label(c)), rep)
         elif f.get("fdok") != "1":
             f1 += 1
             if s["L"] < 8:
-                ctx.violation("block-misaligned F-domain stage with L < 8 (theorem small_L_block_aligned says impossible): %s (%s)" % (op, P.label(c)), rep)
+                viol(ctx, "block-misaligned F-domain stage with L < 8 (theorem small_L_block_aligned says impossible): %s (%s)" % (op, P.label(c)), rep)
     ctx.count("evaluations", len(res))
     ctx.count("traces_validated_against_impl", len(ops))
     ctx.count("distinct_nontrivial", len(set(ops)))
     ctx.cov["f1_plans_in_sweep"] = f1
     ctx.cov["plans_swept"] = len(res)
     if len(ans) != len(ops):
-        ctx.violation("Lean driver answered %d lines for %d plan stages" % (len(ans), len(ops)), {}, no_input=True)
+        viol(ctx, "Lean driver answered %d lines for %d plan stages" % (len(ans), len(ops)), {}, no_input=True)
 
 
 # ------------------------------------------------------------------ falsifier: measurement on the real library
@@ -240,6 +257,7 @@ def measure(job):
                 out["skipped"] = info.get("error", "not the constant-rate engine")
                 return out
             infos[p] = info
+        out["plans"] = {p: P.plan_strs(infos[p]) for p in phases}
         q = infos[phases[0]]["q"]
         for p in phases:
             c = dict(c0) if p is None else dict(c0, phase=p)
@@ -306,10 +324,15 @@ def evaluate(ctx, r):
     ref = phases[0]
     bad = []
     if "error" in r:
-        return [((ref,), "machinery", r["error"])]
+        m = re.search(r"phase=([0-9.]+)", r["error"])
+        who = ref
+        if m:
+            who = ([p for p in phases if abs(float(m.group(1)) - p) < 1e-9] or [ref])[0]
+        return [((who,), "crash" if "harness failed" in r["error"] else "machinery", r["error"])]
     base = r["phase"][ref]
     bits = float(base["q"]["prec"]) or 16.0
     eps = eng_eps(base["engine"])
+    pbt = pb_tol(base["q"])
     for p in phases[1:]:
         cur = r["phase"][p]
         for s0, s1 in zip(base["sine"], cur["sine"]):
@@ -320,8 +343,8 @@ def evaluate(ctx, r):
             if s1["out"] != s0["out"]:
                 bad.append(((p,), "length", "output length %d for phase %s, %d for linear phase (N = %d)" % (s1["out"], p, s0["out"], s0["n"])))
             db = abs(20 * math.log10(max(s1["amp"], 1e-300) / max(s0["amp"], 1e-300)))
-            if db > PB_TOL_DB:
-                bad.append(((p,), "gain", "pass-band tone at %.2f of the pass-band: gain differs from linear phase by %.4f dB (> %.2f dB)" % (s0["x"], db, PB_TOL_DB)))
+            if db > pbt:
+                bad.append(((p,), "gain", "pass-band tone at %.2f of the pass-band: gain differs from linear phase by %.4f dB (> %.2f dB)" % (s0["x"], db, pbt)))
             tol = max(4 * s0["rms"], 2.0 ** (1 - bits) + 8 * eps) + FIT_FLOOR
             if s1["rms"] > tol:
                 bad.append(((p,), "residual", "pass-band tone at %.2f: fit residual %.3g rms (linear phase: %.3g; tolerance %.3g)" % (s0["x"], s1["rms"], s0["rms"], tol)))
@@ -341,8 +364,8 @@ def evaluate(ctx, r):
             ctx.count("response_comparisons")
             if d["n_out"] != d0["n_out"]:
                 bad.append(((p,), "length", "output length %d for phase %s, %d for linear phase (N = %d)" % (d["n_out"], p, d0["n_out"], d0["n_in"])))
-            if d["pb_db"] > PB_TOL_DB:
-                bad.append(((p,), "gain", "|H_p| differs from |H_50| by %.4f dB in the pass-band (> %.2f dB)" % (d["pb_db"], PB_TOL_DB)))
+            if d["pb_db"] > pbt:
+                bad.append(((p,), "gain", "|H_p| differs from |H_50| by %.4f dB in the pass-band (> %.2f dB)" % (d["pb_db"], pbt)))
             lim = max(-6.0206 * bits + 1.0, d0["sb_db"] + 3.0)
             if d["sb_db"] > lim:
                 bad.append(((p,), "rejection", "stop-band peak %.1f dB for phase %s (linear phase %.1f dB, configured %.1f dB)" % (d["sb_db"], p, d0["sb_db"], -6.0206 * bits)))
@@ -361,7 +384,7 @@ def fph1(r, p):
     ph = float(cur["q"]["phase"])
     short = any(s["kind"] == "dft" and int(s["numTaps"]) < 256 for s in cur["plan"])
     sb = r["proto"]["per"][p]["sb_db"]
-    return bits >= 30 and 0 < min(ph, 100 - ph) < 25 and short and sb <= -6.0206 * bits + 8.0
+    return bits >= 28 and 0 < min(ph, 100 - ph) <= 25 and short and sb <= -6.0206 * bits + 18.0
 
 
 BASE_RATIOS = [(1, 2), (2, 1), (1, 4), (3, 1), (2, 3), (1, 8), (1, 16), (1, 128), (1, 64), (44100, 48000), (3.14159, 1), (1, 1.41421356),
@@ -376,7 +399,7 @@ def make_jobs(ctx):
     combos = [(ir, orr, recs[i], rng.below(2)) for i, (ir, orr) in enumerate(BASE_RATIOS[:nbase])]
     if not ctx.quick:
         combos += [(ir, orr, rec, simd) for (ir, orr) in BASE_RATIOS[:9] for rec in (1, 4, 6) for simd in (0, 1)]
-    for i in range(12 if ctx.quick else 120):
+    for i in range(12 if ctx.quick else 400):
         ir, orr = cr.gen_rates(rng, max_up=300.0, max_down=400.0)
         combos.append((ir, orr, rng.choice([1, 2, 3, 4, 4, 5, 6, 7]), rng.below(2)))
     for (ir, orr, rec, simd) in combos:
@@ -416,6 +439,8 @@ def falsifier(ctx, jobs):
             for p in who:
                 if p in r["phase"] and float(r["phase"][p]["q"]["phase"]) != 50:
                     hits += [k for k in cr.classify_known(r["phase"][p]["plan"], job["cfg"]) if k in known]
+                elif kind == "crash" and p != 50 and p in r.get("plans", {}):
+                    hits += [k for k in cr.classify_known(r["plans"][p], job["cfg"]) if k in known]
             if not hits and kind == "rejection" and "F-PH1" in known and fph1(r, who[0]):
                 hits = ["F-PH1"]
             if hits:
@@ -425,12 +450,19 @@ def falsifier(ctx, jobs):
             if (who, kind) in reported:
                 continue
             reported.add((who, kind))
-            ctx.violation("C14 fails on the real code: %s (%s, phase %s)" % (text, P.label(job["cfg"]), "/".join("%g" % x for x in who)),
+            viol(ctx, "C14 fails on the real code: %s (%s, phase %s)" % (text, P.label(job["cfg"]), "/".join("%g" % x for x in who)),
                           {"cfg": job["cfg"], "phases": job["phases"], "who": list(who), "kind": kind, "what": text,
                            "plan": {str(p): r["phase"][p]["plan"] for p in who if p in r["phase"]}, "tones": job["tones"], "proto_cap": job["proto_cap"]},
                           no_input=(kind == "machinery"))
         if not bad:
             pm = r.get("proto")
+            pbt = pb_tol(r["phase"][ref]["q"])
+            for p in job["phases"][1:]:
+                for s0, s1 in zip(r["phase"][ref]["sine"], r["phase"][p]["sine"]):
+                    db = abs(20 * math.log10(max(s1["amp"], 1e-300) / max(s0["amp"], 1e-300)))
+                    ctx.cov["worst_tone_gain_dev_over_tolerance"] = max(ctx.cov.get("worst_tone_gain_dev_over_tolerance", 0), round(db / pbt, 4))
+            if pm:
+                ctx.cov["worst_pb_dev_over_tolerance"] = max(ctx.cov.get("worst_pb_dev_over_tolerance", 0), round(max(d["pb_db"] for d in pm["per"].values()) / pbt, 4))
             ctx.sample({"cfg": P.label(job["cfg"]), "phases": job["phases"],
                         "worst_tone_gain_dev_db": max([abs(20 * math.log10(max(s1["amp"], 1e-300) / max(s0["amp"], 1e-300)))
                                                        for p in job["phases"][1:] for s0, s1 in zip(r["phase"][ref]["sine"], r["phase"][p]["sine"])] or [0]),
@@ -458,7 +490,7 @@ def pinned_f1(ctx):
             ctx.known("F1", "%s [replayed: HQ 1->128 phase_response=0, post stage L=%d block_len=%d: tone gain %+.2f dB, fit residual %.1f dB re. the tone]" % (
                 known["F1"]["what"], post["L"], post["blockLen"], db, 20 * math.log10(max(s1["rms"], 1e-300))))
         else:
-            ctx.violation("C14 fails on the real code (finding F1 is not listed as known): HQ 1->128 phase 0: gain %+.2f dB, residual %.3g" % (db, s1["rms"]),
+            viol(ctx, "C14 fails on the real code (finding F1 is not listed as known): HQ 1->128 phase 0: gain %+.2f dB, residual %.3g" % (db, s1["rms"]),
                           {"cfg": c, "plan": P.plan_strs(info)})
     elif not hit:
         ctx.notes.append("F1 witness: the planner no longer exports a misaligned stage for HQ 1->128 phase 0 (finding fixed?); "
@@ -485,7 +517,7 @@ def run(ctx):
                        "every tap / num_taps as designed / post_peak / preload / at / block_len / input_size / FDomainOK equal to the Lean model; "
                        "(2) every dft stage of a sweep of exported plans satisfies post_peak = L*preload + at, at < L, linear => centred, "
                        "at = 0 and L | block_len (Lean definitions evaluated by the driver); non-linear stages with L !| block_len are counted (F1), "
-                       "none may have L < 8; (3) measurement: |H_p| vs |H_50| <= %.2f dB over the pass-band, stop-band peak <= max(configured "
+                       "none may have L < 8; (3) measurement: |H_p| vs |H_50| <= %.2f dB over the pass-band (0.35 dB for the medium roll-off recipes, whose plan depends on the phase), stop-band peak <= max(configured "
                        "precision + 1 dB, linear + 3 dB), equal output length, p vs 100-p mirror images about an axis within one input period "
                        "(16 eps of the engine + 2^(1-bits)), linear phase symmetric about the input instant, tone gain / fit residual against linear phase" % PB_TOL_DB)
     ctx.assume("the cepstral transform (FFT, atan2, log, exp) is opaque to the model: it enters the theorems as an arbitrary array `work`, "
